@@ -51,6 +51,8 @@ for arch, vdef in (("avx2", "VEC_LEN=32"), ("sse", "VEC_LEN=16")):
         PROPS["C05"]["jobs"].append(dict(
             id="C05.parseStringInplace@" + arch, src="c05_string.c", harness="h_parseStringInplace", units=sbu, defs=[vdef, "NMAX=%d" % nmax], arch=arch,
             route="B(raw length<=%d)" % nmax, bound="raw literal length <= %d" % nmax, function="parseStringInplace", unwind=nmax + VL + 14, object_bits=14, replay="parsestring", timeout=1500,
+            cbmc_unwindset="parseStringInplace.0:%d,parseStringInplace.1:%d,parseStringInplace.2:%d,parseStringInplace.3:%d,parseStringInplace.4:%d,parseStringInplace.5:%d,parseStringInplace.6:2" % (
+                nmax // VL + 3, nmax // 2 + 2, VL // 8 + 2, nmax // VL + 3, VL // 8 + 2, nmax // 2 + 2),
             claims="bounded: for every literal content up to the bound (hence every offset of every special byte relative to the vector blocks): accepted iff RFC 8259 accepts; decoded bytes, length and source advance equal the scalar oracle; rejected literals yield one of the three string-fault codes; reads stay inside literal + VEC_LEN + 12 bytes"))
 
 
@@ -116,8 +118,8 @@ C11_JOBS.append(dict(
     claims="against callee contracts, any index: callee preconditions hold; pos monotone; success => pos' <= len; scanner state stays well-formed"))
 C11_JOBS.append(dict(
     id="C11.GetOnDemand.driver", src="c11_driver.c", harness="h_GetOnDemand", units=SCANNER_UNITS + ["SkipScanner.GetOnDemand"], defs=["VEC_LEN=32"], arch="avx2",
-    route="B(path<=3, back-edges<=4)", bound="path length <= 3; each goto back-edge (query, obj_key) traversed at most 4 times; any len <= 2^31-65",
-    function="SkipScanner::GetOnDemand (driver) + wrapper slice construction", unwind_paths=5, cbmc_unwindset="h_GetOnDemand.0:4", object_bits=12, timeout=1500, replay="ondemand",
+    route="B(path<=3, back-edges<=2)", bound="path length <= 3; each goto back-edge (query, obj_key) traversed at most 2 times; any len <= 2^31-65",
+    function="SkipScanner::GetOnDemand (driver) + wrapper slice construction", unwind_paths=3, cbmc_unwindset="h_GetOnDemand.0:4", object_bits=12, timeout=1500, replay="ondemand", solver="cadical",
     flags=["--no-malloc-may-fail"], gi_flags=["--no-malloc-may-fail"],
     # `sn = data + pos - 1 - sp` is evaluated before the `if (!skips)` test; after a failed SkipString pos may be len + 1, so
     # data + pos is formed two past the end (never dereferenced): formally undefined pointer arithmetic, reported as an observation
@@ -297,12 +299,36 @@ PROPS["C08"] = dict(level="other", jobs=C08_JOBS, trusted_base=COMMON_TRUST + MO
 # ===================================================================================== C04
 C04_UNITS = ["kPow10Tab", "is_digit", "Parser.fields", "Parser.carry_one", "Parser.str2int", "Parser.parseFloatingFast", "Parser.parseNumber"]
 C04_JOBS = []
-for nb in (12, 26):
-    C04_JOBS.append(dict(id="C04.parseNumber.nb%d" % nb, src="c04_number.c", harness="h_parseNumber", units=C04_UNITS, defs=["NB=%d" % nb], arch="-", route="B(len<=%d)" % nb,
-        bound="number text of at most %d bytes" % nb, function="Parser::parseNumber (+str2int, carry_one, parseFloatingFast)", unwind=max(nb + 3, 18), object_bits=12, timeout=1500 if nb > 12 else 900, flags=["--slice-formula"], solver="cadical",
-        replay="parsenumber", thorough_only=False,
+for nb, shape, tho in ((12, None, False), (30, "SHAPE_ZEROS", False), (27, "SHAPE_LONGINT", False), (26, None, True)):
+    C04_JOBS.append(dict(id="C04.parseNumber.nb%d%s" % (nb, "." + shape[6:].lower() if shape else ""), src="c04_number.c", harness="h_parseNumber", units=C04_UNITS, defs=["NB=%d" % nb] + ([shape] if shape else []), arch="-",
+        route="B(len<=%d%s)" % (nb, ", " + shape[6:].lower() + " shape" if shape else ""),
+        bound="number text of at most %d bytes%s" % (nb, {None: "", "SHAPE_ZEROS": ", of the shape [-]0.00...0 + 3 arbitrary bytes", "SHAPE_LONGINT": ", of the shape [-]ddd...d (>= 22 digits) + 3 arbitrary bytes"}[shape]),
+        thorough_only=tho, function="Parser::parseNumber (+str2int, carry_one, parseFloatingFast)", unwind=max(nb + 3, 18), object_bits=12, timeout=1500 if nb > 12 else 900, flags=["--slice-formula"], solver="cadical",
+        replay="parsenumber",
         claims="bounded: accepts exactly the RFC 8259 number grammar and stops on the first byte that cannot continue it; integers within uint64 / int64 are delivered exactly with the right kind, others as Double; signed zero; the float converters are reached only with a non-zero mantissa and in-range table indices; a dropped non-zero digit is always reported (trunc) and never reaches the exact-mantissa path"))
 C04_JOBS.append(dict(id="C04.parseFloatingFast", src="c04_number.c", harness="h_parseFloatingFast", units=C04_UNITS, defs=["UNIT_parseFloatingFast"], arch="-", route="L",
     function="Parser::parseFloatingFast", flags=["--slice-formula"], timeout=600,
     claims="all man < 2^52, -22 <= exp10 <= 37: every kPow10Tab index (exp10-22, 22, exp10, -exp10) is inside the 23-entry table"))
 PROPS["C04"] = dict(level="other", jobs=C04_JOBS, trusted_base=COMMON_TRUST, assumptions=[], undecided=[], explanation="")
+
+
+# ===================================================================================== C15 (same contracts for both x86 instantiations)
+import copy
+C15_JOBS = []
+for src_prop, pick in (("C11", ("GetNonSpaceBits@", "GetNextToken_3@", "GetNextToken_4@", "SkipString@", "GetStringBits@")),
+                       ("C05", ("StringBlock@",)), ("C09", ("CopyAndGetEscapMask@",))):
+    for j in PROPS[src_prop]["jobs"]:
+        if any(("." + p) in j["id"] for p in pick):
+            k = copy.deepcopy(j); k["id"] = "C15." + j["id"]; k.pop("replay", None)
+            k["claims"] = "[same contract proved for the avx2 and the sse instantiation => identical results] " + j["claims"]
+            C15_JOBS.append(k)
+for arch, vdef in ARCHS:
+    VL = 32 if arch == "avx2" else 16
+    C15_JOBS.append(dict(
+        id="C15.SkipString.exact@" + arch, src="c11_skip.c", harness="h_SkipString_exact", units=arch_units(arch) + ["IsSpace"] + ESC + SKIP_LEAVES, defs=[vdef, "UNIT_SkipString", "SKIPSTRING_EXACT"], arch=arch,
+        route="B(len<=2*VEC_LEN+8)", bound="len <= %d" % (2 * VL + 8), function="SkipString", unwind=2 * VL + 10, object_bits=16, timeout=1200, replay="skipstring", solver="cadical",
+        claims="bounded: for every content, length and start position, the result equals the scalar oracle (first unescaped quote; escaped flag); both instantiations against the same oracle"))
+PROPS["C15"] = dict(level="other", jobs=C15_JOBS, trusted_base=COMMON_TRUST + MODEL_TRUST,
+    native=[dict(id="ifunc_forwarders", kind="script", src="tools/ifunc_check.py",
+                 obligation="C15.dispatch: every target(SONIC_WESTMERE/SONIC_HASWELL) wrapper in x86_ifuncs/*.h is `return <sse|avx2>::<same name>(<its parameters in order>);`")],
+    assumptions=[], undecided=[], explanation="")
